@@ -13,6 +13,9 @@ trace = {
   "handled": [[uid, probe token], ...],      # calls of the probe handler
   "calls": [[pre uid, addr, funsig], ...],   # run_target_function calls (resolved contracts x selectors)
   "probe_names": {token: "C.f(sig)"},
+  "components": {uid: {...}},                # for every Exec handed to get_state_id, at that moment: balance term id, code identities,
+                                             # storage items (key, value term id), path condition ids, slice, and "direct" = positions of the
+                                             # conditions mentioning a symbol of the balance / a stored value (computed here from the z3 terms)
 }
 The classification of an end state (stuck / revert / assertion / success) is recomputed here
 from the Exec itself, independently of the branches taken by _compute_frontier.
@@ -31,7 +34,7 @@ def main():
     uids = {}
     ids = {}            # id(ex) -> state id bytes as computed by the real get_state_id
     id_tokens = {}
-    trace = {"setup": None, "states": {}, "frontiers": {}, "evaluated": [], "handled": [], "calls": [], "probe_names": {}}
+    trace = {"setup": None, "states": {}, "frontiers": {}, "evaluated": [], "handled": [], "calls": [], "probe_names": {}, "components": {}}
     probe_tokens = {}
 
     def uid(ex):
@@ -55,10 +58,72 @@ def main():
 
     orig_gsi = m.get_state_id
 
+    sym_ids = {}
+
+    def symbols(term, cache={}):  # noqa: B006
+        """names of the uninterpreted constants of a z3 term (plain traversal of the DAG)"""
+        import z3
+
+        k = term.get_id()
+        if k in cache:
+            return cache[k]
+        out, seen, todo = set(), set(), [term]
+        while todo:
+            t = todo.pop()
+            i = t.get_id()
+            if i in seen:
+                continue
+            seen.add(i)
+            if z3.is_app(t):
+                if t.num_args() == 0 and t.decl().kind() == z3.Z3_OP_UNINTERPRETED:
+                    out.add(t.decl().name())
+                todo.extend(t.children())
+            elif z3.is_quantifier(t):
+                todo.append(t.body())
+        keep.append(term)
+        cache[k] = out
+        return out
+
+    def components(ex):
+        """what the state consists of at this moment, read off the Exec itself (not through
+        snapshot_state): term ids, code identities, storage items, path conditions and slice;
+        "direct" = positions of the conditions that mention a symbol occurring in the balance or
+        in a stored value (computed here from the terms, not from Path's bookkeeping)"""
+        path = ex.path
+        state_syms = set(symbols(ex.balance))
+        for st in ex.storage.values():
+            for v in st._mapping.values():
+                state_syms |= symbols(v)
+        for contract in ex.code.values():  # symbolic parts of deployed code (none in the fabricated projects)
+            for chunk in getattr(getattr(contract, "_code", None), "chunks", {}).values():
+                data = getattr(chunk, "data", None)
+                if hasattr(data, "get_id") and hasattr(data, "children"):
+                    state_syms |= symbols(data)
+        def num(names):
+            return sorted(sym_ids.setdefault(n, len(sym_ids) + 1) for n in names)
+
+        return {
+            "direct": [i for i, c in enumerate(path.conditions) if symbols(c) & state_syms],
+            "state_symbols": sorted(state_syms)[:8],
+            "cond_syms": [num(symbols(c)) for c in path.conditions],     # the symbols of each condition, numbered
+            "state_syms": num(state_syms),
+            "balance": ex.balance.get_id(),
+            "code": [[int_of(a), id(c)] for a, c in ex.code.items()],
+            "storage": [[int_of(a), [[list(k) if isinstance(k, tuple) else k, v.get_id()] for k, v in st._mapping.items()]]
+                        for a, st in ex.storage.items()],
+            "conds": [c.get_id() for c in path.conditions],
+            "sliced": None if path.sliced is None else sorted(path.sliced),
+            "cond_text": {str(i): str(c)[:120] for i, c in enumerate(path.conditions)},
+        }
+
     def get_state_id(ex):
+        u = uid(ex)
+        try:
+            trace["components"][u] = components(ex)
+        except Exception as e:  # noqa: BLE001
+            trace["components"][u] = {"error": repr(e)}
         v = orig_gsi(ex)
         ids[id(ex)] = bytes(v)
-        uid(ex)
         return v
 
     m.get_state_id = get_state_id
